@@ -289,6 +289,22 @@ def job(spec):
         orc = oracle(g)
     except (lr1.TooBig, ValueError) as e:
         return {"kind": kind, "text": text, "oracle": None, "why": str(e)}
+    # oracle self-check (harness bug, not a LALRPOP alarm): an LR(1)-clean grammar is unambiguous
+    selfcheck = None
+    if rng is not None and not orc["lr1"] and rng.random() < 0.15:
+        from .. import earley
+        cfg = gmodel.desugar(g)
+        for s0 in g.starts():
+            for _ in range(4):
+                w = gen.random_sentence(rng, cfg, s0, depth=rng.randint(2, 6), max_len=14)
+                if w is None:
+                    continue
+                ch = earley.Chart(cfg, s0, w)
+                if not ch.accepted():
+                    selfcheck = "generated sentence not recognised: %s" % w
+                elif len(ch.trees(2)) > 1:
+                    selfcheck = "oracle says LR(1) but %s has two derivations" % w
+        selfcheck = selfcheck or "ok"
     d = tempfile.mkdtemp(dir=workroot)
     out = {}
     try:
@@ -302,7 +318,7 @@ def job(spec):
                 out[tag + "_msg"] = (res["stderr"] + res["stdout"])[-400:]
     finally:
         shutil.rmtree(d, ignore_errors=True)
-    return {"kind": kind, "text": text, "oracle": orc, "cli": out, "sugar": any(nt.inline for nt in g.nts) or "*" in text or "?" in text or "+" in text}
+    return {"kind": kind, "text": text, "oracle": orc, "cli": out, "selfcheck": selfcheck, "sugar": any(nt.inline for nt in g.nts) or "*" in text or "?" in text or "+" in text}
 
 
 def run(tier, seed):
@@ -339,6 +355,10 @@ def run(tier, seed):
             chk.count("oracle_out_of_budget")
             continue
         o = r["oracle"]
+        if r.get("selfcheck") not in (None, "ok"):
+            raise core.HarnessError("LR(1) oracle inconsistent with Earley: %s\n%s" % (r["selfcheck"], r["text"]))
+        if r.get("selfcheck") == "ok":
+            chk.count("oracle_selfchecks_passed")
         chk.count("kind_" + r["kind"])
         for tag in CONFIGS:
             chk.evaluations += 1
